@@ -168,6 +168,7 @@ type World struct {
 	sibDone          bool
 	sibGone          bool
 	loopOf           gnet.EventLoop // the EventLoop of some connection, as the application got it in OnOpen
+	loopOfConn       *connState
 	pubEng           int32 // race flavour: released when the application has its Engine / Client handle, acquired by its other goroutines
 	stopAskedStep    int
 	floodUsers       int // application tasks that issue asynchronous writes until Run returns
